@@ -38,6 +38,17 @@ def secret_hits(p, t, acc=None, ctx=""):
     if not isinstance(t, tuple) or not t:
         return acc
     k = t[0]
+    if k == "closure" and len(t) == 3:
+        # a closure capturing a secret is fine if what it *returns* is declassified: look at its return value
+        # with the captures substituted (nested closures are followed the same way)
+        if ctx.count(">") < 8:
+            r = closure_ret(p, t)
+            if r is not None:
+                secret_hits(p, r, acc, ctx + ">")
+                return acc
+        for c in t[2]:
+            secret_hits(p, c, acc, ctx)
+        return acc
     if k == "residual" or (k == "call" and len(t) == 4 and t[1] == flow.FROM_RESIDUAL) or (k == "field" and len(t) == 3 and t[2] in ("as ErrOrNone", "as Break", "as Err")):
         # the error half of a `?`: only the callee's *error value* flows on; the error types of the workspace
         # (Ctap2Error, StatusCode, U2FError, WebauthnError, CoseError) cannot contain secrets (R5)
@@ -68,6 +79,14 @@ def secret_hits(p, t, acc=None, ctx=""):
         if names.is_(n, "private_key_from_cose_key") or (n.endswith("::from") and "SigningKey" in n):
             acc.append("the signing key (%s)" % n.rsplit("::", 1)[-1])
             return acc
+        # workspace callee: a secret argument is harmless if the callee's returned values do not carry that
+        # parameter outside a declassifier (one summary per (callee, parameter), memoised)
+        if n in p.bodies and k == "call":
+            for i, a in enumerate(t[2]):
+                h = secret_hits(p, a, [], ctx)
+                if h and param_leaks(p, n, i + 1, ctx):
+                    acc.extend("%s via argument %d of %s" % (x, i, n.rsplit("::", 1)[-1]) for x in h)
+            return acc
     if k == "field" and len(t) == 3:
         name = t[2]
         base = t[1]
@@ -77,7 +96,7 @@ def secret_hits(p, t, acc=None, ctx=""):
         if name in ("cred_with_uv", "cred_without_uv"):
             acc.append("StoredHmacSecret." + name)
             return acc
-        if name == "hmac_secret" and isinstance(base, tuple) and base and base[0] == "field" and base[2] == "extensions":
+        if name == "hmac_secret" and isinstance(base, tuple) and base and base[0] == "field" and base[2] == "extensions" and base[1] not in (("param", 1), ("upvar", 0)):
             acc.append("Passkey.extensions.hmac_secret")
             return acc
         if name == "credential" and has(base, lambda x: is_call(x, "Authenticator::make_extensions")):
@@ -97,6 +116,26 @@ def secret_hits(p, t, acc=None, ctx=""):
         if isinstance(x, (tuple, frozenset)):
             secret_hits(p, x, acc, ctx)
     return acc
+
+
+_pl_memo = {}
+
+
+def param_leaks(p, fn, idx, ctx=""):
+    """does parameter `idx` of workspace function `fn` reach one of its returned values outside a declassifier?"""
+    key = (fn, idx)
+    if key in _pl_memo:
+        return _pl_memo[key]
+    _pl_memo[key] = True  # recursion guard: pessimistic
+    b = p.bodies[fn]
+    leak = False
+    marker = ("field", ("param", idx), "cred_with_uv")  # stand-in secret: reuse the detector by substitution
+    for s, v in ret_values(p, b):
+        vv = summary.replace(v, ("param", idx), ("field", ("field", ("param", 99), "extensions"), "hmac_secret"))
+        if secret_hits(p, vv, [], ""):
+            leak = True
+    _pl_memo[key] = leak
+    return leak
 
 
 def ret_values(p, body):
